@@ -56,9 +56,16 @@ Variables (fuel : nat) (C : option GenReplicationCode.state * gerr) (min t : Z).
 Notation RES2 := (option ((option GenReplicationCode.state * gerr) * list Z)).
 
 (* ---- findInRange, inner loop ---- *)
-Lemma loop2_found : forall (K : option GenReplicationCode.state -> Z -> list Z -> RES2) lowerID upper splitID fuel2 s sID tr,
-  gen_find_in_range_loop2 K fuel C (state_fn st) min lowerID upper t splitID fuel2 (Some s) sID tr = K (Some s) sID tr.
-Proof. intros. destruct fuel2; reflexivity. Qed.
+(* Once a state file is found the loop is over.  The source may say so in the loop condition
+   (`split == nil && ...`: the next round, entered with the found state, leaves at once) or by
+   `break`; [found_step] settles the first form — a call of the loop with a found state is its
+   continuation, whatever fuel is left — and does nothing in the second. *)
+Ltac found_step :=
+  repeat match goal with
+  | |- context [gen_find_in_range_loop2 ?K ?a ?b ?c ?d ?e ?f ?g ?h ?fu (Some ?s) ?i ?tr] =>
+      replace (gen_find_in_range_loop2 K a b c d e f g h fu (Some s) i tr) with (K (Some s) i tr)
+        by (destruct fu; reflexivity)
+  end.
 
 Lemma loop2_ok : forall (K' : option GenReplicationCode.state -> list Z -> RES2) lowerID upper splitID fuel2 sID tr,
   gen_find_in_range_loop2 (fun sp _ tr0 => K' sp tr0) fuel C (state_fn st) min lowerID upper t splitID fuel2 None sID tr =
@@ -69,7 +76,7 @@ Lemma loop2_ok : forall (K' : option GenReplicationCode.state -> list Z -> RES2)
 Proof.
   intros K' lowerID upper splitID fuel2. induction fuel2 as [|f IH]; intros sID tr;
     cbn [gen_find_in_range_loop2 scan_down];
-    crunch st ltac:(fun _ => rewrite ?loop2_found, ?IH).
+    crunch st ltac:(fun _ => found_step; rewrite ?IH).
 Qed.
 
 (* ---- findInRange ---- *)
